@@ -177,18 +177,30 @@ func (x *Exec) lockAccess(st *State, sname, path, ref, what string) {
 	}
 	x.lockAccesses++
 	if st.held != 1 {
+		// Stop()'s tail: after the Shutdown state has been published under the lock and the
+		// background loops have been waited for, Stop() owns the declared stop-owned fields.
+		if x.e.db.StopOwned[key] && x.top.Key == "Raft.Stop" {
+			if recv := x.rootRecv(); recv != nil {
+				if stoppedClause == nil {
+					ce, err := ParseCExpr("r.state == Shutdown")
+					if err != nil {
+						panic(err)
+					}
+					stoppedClause = &Clause{Kind: "assert", Label: "tail-after-shutdown", Expr: ce, Src: "r.state == Shutdown"}
+				}
+				g := x.cevalBool(stoppedClause.Expr, x.invEnv(st, nil, recv), stoppedClause)
+				x.oblige(st, x.top.Key+".tail-after-shutdown", "lock", x.curPos,
+					fmt.Sprintf("unlocked %s of the stop-owned field %s: only after this call has published the Shutdown state", what, key), g)
+				return
+			}
+		}
 		x.lockViolations = append(x.lockViolations, fmt.Sprintf("%s of %s without holding Raft.mu at %s", what, key, x.e.pos(x.curPos)))
 		return
 	}
 	// Fields that Stop() touches without the lock once it has published the Shutdown state: holding
 	// the lock does not protect an access to them, knowing that the node is not shut down does.
 	if x.e.db.StopOwned[key] && !x.e.db.StopExempt[x.top.Key] {
-		var recv *Val
-		for fr := x.frame; fr != nil; fr = fr.parent {
-			if fr.recv != nil {
-				recv = fr.recv
-			}
-		}
+		recv := x.rootRecv()
 		if recv == nil {
 			return
 		}
@@ -210,7 +222,17 @@ func (x *Exec) lockAccess(st *State, sname, path, ref, what string) {
 	}
 }
 
-var stopClause *Clause
+var stopClause, stoppedClause *Clause
+
+func (x *Exec) rootRecv() *Val {
+	var recv *Val
+	for fr := x.frame; fr != nil; fr = fr.parent {
+		if fr.recv != nil {
+			recv = fr.recv
+		}
+	}
+	return recv
+}
 
 // assumeTimeless: the `assume` clauses of the function under verification are facts about the
 // environment that hold at any time (A-ES, A-LM, A-NOOVF, A-IOOK ...): they are assumed again for
